@@ -4,6 +4,7 @@ passlib.utils.binary - binary data encoding/decoding/manipulation
 
 from __future__ import annotations
 
+import threading
 from base64 import (
     b32decode as _b32decode,
 )
@@ -835,15 +836,30 @@ class LazyBase64Engine(Base64Engine):
     def __init__(self, *args, **kwds):
         self._lazy_opts = (args, kwds)
 
+    #: serializes lazy initialization, so that a second thread waits for the first
+    #: instead of seeing a half-initialized engine.
+    _lazy_lock = threading.RLock()
+
     def _lazy_init(self):
-        args, kwds = self._lazy_opts
-        super().__init__(*args, **kwds)
-        del self._lazy_opts
-        self.__class__ = Base64Engine
+        with LazyBase64Engine._lazy_lock:
+            opts = object.__getattribute__(self, "__dict__").pop("_lazy_opts", None)
+            if opts is None:
+                # already initialized (by another thread)
+                return
+            args, kwds = opts
+            try:
+                super().__init__(*args, **kwds)
+            except BaseException:
+                # leave engine uninitialized, so the next access tries (and fails) again
+                object.__getattribute__(self, "__dict__").setdefault("_lazy_opts", opts)
+                raise
+            self.__class__ = Base64Engine
 
     def __getattribute__(self, attr):
         if not attr.startswith("_"):
-            self._lazy_init()
+            # NOTE: invoked via the class, since self.__class__ may have been
+            #       switched by another thread since this method was looked up.
+            LazyBase64Engine._lazy_init(self)
         return object.__getattribute__(self, attr)
 
 
